@@ -54,7 +54,15 @@ type srvInst struct {
 	late         func(i int)
 	methodHeader string
 	tunnel       func(verb, query string, body []byte) ([]byte, http.Header)
-	client       func(rt http.RoundTripper, resolver interface{}, threshold int) func(op, id string) string
+	client       func(rt http.RoundTripper, resolver interface{}, threshold int) *clientFns
+}
+
+// ONE restli.Client behind three doors: a whole call; building a request with the exported New*Request functions;
+// sending a request built earlier
+type clientFns struct {
+	call  func(op, id string) string
+	build func(op, id string) (*http.Request, error)
+	send  func(req *http.Request) string
 }
 
 type d2Module struct {
@@ -370,7 +378,11 @@ func (t handlerTransport) RoundTrip(req *http.Request) (*http.Response, error) {
 }
 
 var clientOps = []string{"get", "get-shared", "get-sub", "create", "delete", "find", "find-long", "get-all", "batch-get", "action",
-	"fail", "fail-nostatus", "missing"}
+	"fail", "fail-nostatus", "missing", "update", "update-long", "partial-update-long", "create-long"}
+
+// requests built with NewJsonRequest / NewCreateRequest / NewGetRequest / NewDeleteRequest and sent later; the -long ones
+// are tunnelled (query above the threshold), three of them with a body (multipart/mixed)
+var buildOps = []string{"b-update-long", "b-partial-update-long", "b-create-long", "b-update", "b-get-long", "b-delete"}
 
 func runClient(cc childCfg, mod srvModule, dm d2Module) childOut {
 	out := childOut{Kinds: map[string]int{}}
@@ -383,13 +395,39 @@ func runClient(cc childCfg, mod srvModule, dm d2Module) childOut {
 		d.apply(d.urisPath+"/"+node, &b)
 	}
 	announce("n1", map[string]float64{"http://h1.test:80/": 1, "http://h2.test:80/": 2})
-	clients := map[string]func(op, id string) string{
+	clients := map[string]*clientFns{
 		"simple": inst.client(handlerTransport{inst.handler}, nil, 200),
-		"d2":     inst.client(handlerTransport{inst.handler}, d.resolver, 0),
+		"d2":     inst.client(handlerTransport{inst.handler}, d.resolver, 200),
 	}
-	opsFor := map[string][]string{"simple": clientOps, "d2": {"get", "create", "delete", "find", "get-all", "batch-get", "action"}}
+	opsFor := map[string][]string{"simple": clientOps,
+		"d2": {"get", "create", "delete", "find", "get-all", "batch-get", "action", "update-long", "create-long", "find-long"}}
+	// build now, send later: the observation of one request
+	buildSend := func(c *clientFns, op, id string) (*http.Request, string) {
+		req, err := c.build(op, id)
+		if err != nil {
+			return nil, "build-error:" + fmt.Sprintf("%T", err)
+		}
+		return req, ""
+	}
+	canon := func(s, id string) string { return strings.ReplaceAll(s, id, "{id}") }
 	expect := map[string]string{}
-	for kind, call := range clients {
+	for _, op := range buildOps { // serial: build one, send it, build the next
+		obs := [2]string{}
+		for k, id := range []string{idSerialA, idSerialB} {
+			req, e := buildSend(clients["simple"], op, id)
+			if req != nil {
+				e = clients["simple"].send(req)
+			}
+			obs[k] = canon(e, id)
+		}
+		if obs[0] != obs[1] {
+			out.mismatch("client:"+mod.name, "serial-run-not-deterministic", "built:"+op, obs[0], obs[1])
+			continue
+		}
+		expect["built:"+op] = obs[0]
+	}
+	for kind, fns := range clients {
+		call := fns.call
 		for _, op := range opsFor[kind] {
 			a := strings.ReplaceAll(call(op, idSerialA), idSerialA, "{id}")
 			b := strings.ReplaceAll(call(op, idSerialB), idSerialB, "{id}")
@@ -449,20 +487,91 @@ func runClient(cc childCfg, mod srvModule, dm d2Module) childOut {
 					continue
 				}
 				id := reqID(g, i)
-				got := strings.ReplaceAll(clients[kind](op, id), id, "{id}")
+				got := strings.ReplaceAll(clients[kind].call(op, id), id, "{id}")
 				counts[g][kind+":"+op]++
 				if got != want {
 					mu.Lock()
 					out.mismatch("client:"+mod.name, "result-differs-from-serial-run", kind+":"+op, want, got)
 					mu.Unlock()
 				}
+				if i%4 == 3 { // a burst: three requests built back to back, then sent in reverse order
+					type built struct {
+						op, id string
+						req    *http.Request
+						err    string
+					}
+					var bs []built
+					for j := 0; j < 3; j++ {
+						bop, bid := buildOps[r.Intn(len(buildOps))], reqID(g, 5000+i*4+j)
+						req, e := buildSend(clients["simple"], bop, bid)
+						bs = append(bs, built{bop, bid, req, e})
+					}
+					for j := len(bs) - 1; j >= 0; j-- {
+						b := bs[j]
+						w, ok := expect["built:"+b.op]
+						if !ok {
+							continue
+						}
+						got := b.err
+						if b.req != nil {
+							got = clients["simple"].send(b.req)
+						}
+						counts[g]["built:"+b.op]++
+						if got = canon(got, b.id); got != w {
+							mu.Lock()
+							out.mismatch("client:"+mod.name, "built-request-differs-from-serial-run", "built:"+b.op, w, got)
+							mu.Unlock()
+						}
+					}
+				}
 			}
 		}(g)
 	}
+	// one goroutine builds requests while another sends the ones built earlier (up to 8 are pending at any time)
+	type pending struct {
+		op, id string
+		req    *http.Request
+		err    string
+	}
+	pipe := make(chan pending, 8)
+	pipeCount := map[string]int{}
+	wg.Add(2)
+	go func() {
+		defer wg.Done()
+		defer close(pipe)
+		r := hx.NewRand(cc.Seed*911 + 17)
+		<-start
+		for i := 0; i < cc.Per*2; i++ {
+			op, id := buildOps[r.Intn(len(buildOps))], reqID(80, i)
+			req, e := buildSend(clients["simple"], op, id)
+			pipe <- pending{op, id, req, e}
+		}
+	}()
+	go func() {
+		defer wg.Done()
+		<-start
+		for p := range pipe {
+			w, ok := expect["built:"+p.op]
+			if !ok {
+				continue
+			}
+			got := p.err
+			if p.req != nil {
+				got = clients["simple"].send(p.req)
+			}
+			pipeCount["built:"+p.op]++
+			if got = canon(got, p.id); got != w {
+				mu.Lock()
+				out.mismatch("client:"+mod.name, "built-request-differs-from-serial-run", "pipelined:"+p.op, w, got)
+				mu.Unlock()
+			}
+		}
+	}()
 	close(start)
 	wg.Wait()
 	close(stop)
 	<-feederDone
+	counts = append(counts, pipeCount)
 	if s := inst.shared(); s != before {
 		out.mismatch("client:"+mod.name, "shared-object-mutated", "shared", before, s)
 	}
